@@ -251,7 +251,12 @@ def hermite_case(case):
     # beside the dyadic lattice around the origin: narrow intervals with ends that are not dyadic fractions, far from the origin of the time axis
     # (|t0| / |t1 - t0| up to 4e5), of either orientation.  The cubic is P((t - t0) / (t1 - t0)) so that all four coefficients matter.
     LD = np.longdouble
-    for (a_, b_) in FAR_INTERVALS:
+    # ... and intervals of extreme length (steps of 1e-13 or 1e13 units of time, 1e+-110 where the float type holds them): powers of the length leave the
+    #     float type's range although the length, the data and every value of the piece are ordinary numbers of that type
+    extreme = [(0.0, 2.0 ** -43), (2.0 ** -43, 0.0), (0.0, 1.0e13), (-1.0e13, 0.0), (1.0, 1.0 + 2.0 ** -20)]
+    if dt is not np.float32:
+        extreme += [(0.0, 1.0e-110), (0.0, 1.0e110), (1.0e110, 0.0)]
+    for (a_, b_) in FAR_INTERVALS + extreme:
         t0r, t1r = dt(a_), dt(b_)
         d = LD(t1r) - LD(t0r)
         P = lambda u: co[0] + u * (co[1] + u * (co[2] + u * co[3]))
